@@ -82,10 +82,18 @@ def do_check(cid, tier, only, t0):
     work = new_workdir(cid)
     only_set = set(only.split(",")) if only else None
 
+    # a phase that cannot decide (lost anchor, construct outside the subset, build failure) is recorded as
+    # undecided and the other back end still runs: a Kani twin can find the input a rejected Verus unit cannot.
     if prop.get("kani_units"):
-        kani_phase(prop, tier, known, res, work, only_set)
+        try:
+            kani_phase(prop, tier, known, res, work, only_set)
+        except Undecided as e:
+            res.undecided.append(("<kani phase>", str(e)))
     if prop.get("verus_units"):
-        verus_phase(prop, tier, known, res, work, only_set)
+        try:
+            verus_phase(prop, tier, known, res, work, only_set)
+        except Undecided as e:
+            res.undecided.append(("<verus phase>", str(e)))
 
     # ---- outcome
     for o in sorted(res.obligations, key=lambda o: -(o.get("time_s") or 0)):
@@ -98,7 +106,7 @@ def do_check(cid, tier, only, t0):
     for u in res.undecided:
         print("UNDECIDED property=%s obligation=%s : %s" % (cid, u[0], u[1]))
     wall = time.time() - t0
-    if not only_set:
+    if not only_set and not os.environ.get('VERIF_NO_EVIDENCE'):
         write_evidence(prop, tier, seed, res, wall)
     n_dis = sum(1 for o in res.obligations if o["status"] == "discharged" and o["role"] == "deciding")
     n_all = sum(1 for o in res.obligations if o["role"] == "deciding")
@@ -129,20 +137,28 @@ def kani_phase(prop, tier, known, res, work, only_set):
         known_by_ob.setdefault(k.get("obligation"), []).append(k)
 
     plan = []  # (ob, role)
+    natives = []
     for o in select(obs, tier):
         role = o.get("role", "deciding")
         if role in ("fallback", "excl", "native_fallback"):
             continue  # run on demand / via its owner
+        if role == "native_bounded":
+            if not only_set or o["name"] in only_set:
+                natives.append(o)
+            continue
         if only_set and o["name"] not in only_set:
             continue
         if o.get("known_excl") and o["name"] in known_by_ob:
-            excl = by_name.get(o["known_excl"])
-            if not excl:
-                raise Undecided("known_excl harness %s missing" % o["known_excl"])
-            plan.append((excl, "deciding", o))
+            if o["known_excl"] != "none":
+                excl = by_name.get(o["known_excl"])
+                if not excl:
+                    raise Undecided("known_excl harness %s missing" % o["known_excl"])
+                plan.append((excl, "deciding", o))
             plan.append((o, "witness", None))
         else:
             plan.append((o, "deciding", None))
+    if natives:
+        native_bounded_phase(prop, natives, units, features, res)
     if not plan:
         return
 
@@ -151,7 +167,7 @@ def kani_phase(prop, tier, known, res, work, only_set):
     for u in units:
         res.assumptions += scan_kani_assumptions(u)
 
-    timeout = int(prop.get("kani_timeout_%s" % tier, 300 if tier == "quick" else 1800))
+    timeout = int(prop.get("kani_timeout_%s" % tier, 600 if tier == "quick" else 2400))
     harnesses = [p[0]["_full"] for p in plan]
     log("[%s] kani: %d harnesses, timeout %ds each" % (cid, len(harnesses), timeout))
     batch = K.run_batch(crate_dir, harnesses, features, timeout)
@@ -265,6 +281,56 @@ def confirm_and_report(prop, o, single, crate_dir, features, res, units, note=""
     return True
 
 
+def native_bounded_phase(prop, natives, units, features, res):
+    """Bounded stand-ins executed natively: plain functions with concrete enumeration loops and asserts, compiled by
+    rustc against the staged real crate (debug profile, overflow checks on). Labelled bounded, never counted as proof."""
+    cid = prop["id"]
+    work = new_workdir(cid + "-native")
+    crate_dir = stage_crate(work)
+    extra = {}
+    for o in natives:
+        code = "    #[test]\n    fn verif_native_%s() {\n        %s();\n    }\n" % (o["name"], o["name"])
+        extra[o["_unit"].path] = extra.get(o["_unit"].path, "") + code
+    inject(crate_dir, units, extra_by_unit=extra)
+    cmd = ["cargo", "kani", "playback", "-Z", "concrete-playback"] + K._features_args(features) + \
+          ["--lib", "--", "verif_native_", "--test-threads", "8"]
+    from .common import run as _run, base_env
+    env = base_env()
+    env["RUST_BACKTRACE"] = "0"
+    t0 = time.time()
+    rc, out, secs, killed = _run(cmd, cwd=crate_dir, timeout=1800, env=env)
+    res.backend_cmds.append(" ".join(cmd))
+    k = out.find("Running unittests")
+    shown = out[k:] if k >= 0 else out
+    write(os.path.join(EVIDENCE, "logs", "%s-native.log" % cid), tail(shown, 200000))
+    for o in natives:
+        m = re.search(r"test \S*::verif_native_%s \.\.\. (\w+)" % re.escape(o["name"]), out)
+        rec = res.add(name=o["name"], backend="native (rustc debug, enumerated box)", role="deciding",
+                      function=o.get("fn", ""), kind="bounded", bound=o.get("bound", ""), statement=o.get("stmt", ""),
+                      tier=o.get("tier", "quick"), status="undecided", reason="", time_s=None, stubs=[], plumbing=False,
+                      for_obligation=None)
+        if not m:
+            rec["reason"] = "native bounded check did not run (build failure?)"
+            res.undecided.append((o["name"], rec["reason"] + ": " + tail(out, 800)))
+            continue
+        if m.group(1) == "ok":
+            rec["status"] = "discharged"
+            continue
+        rec["status"] = "failed"
+        pm = re.search(r"---- \S*::verif_native_%s stdout ----\n(.*?)(?:\n\n|\Z)" % re.escape(o["name"]), out, re.S)
+        rec["reason"] = (pm.group(1).strip()[:400] if pm else "native assertion failed")
+        tname = "verif_native_%s" % o["name"]
+        code = "#[test]\nfn %s() {\n    %s();\n}" % (tname, o["name"])
+        replay_path = os.path.join(REPLAY_DIR, "%s-%s.json" % (cid, o["name"]))
+        dump_json(replay_path, {"property": cid, "obligation": o["name"], "statement": o.get("stmt", ""),
+                                "function": o.get("fn", ""), "backend": "native (rustc, debug profile) enumerated box",
+                                "unit": os.path.relpath(o["_unit"].path, VERIF), "harness": o["_full"],
+                                "features": features, "concrete_playback_test": code, "test_name": tname,
+                                "failing_input": rec["reason"],
+                                "native_replay": {"reproduced": True, "output_tail": tail(shown, 6000)}})
+        res.violations.append((o["name"], replay_path, ""))
+
+
 def native_fallback_report(prop, fb, features, res, units, note=""):
     """A fallback made of concrete cases only: compiled by rustc against the staged real crate and executed."""
     cid = prop["id"]
@@ -313,13 +379,22 @@ def verus_phase(prop, tier, known, res, work, only_set):
     for k in known:
         known_by_ob.setdefault(k.get("obligation"), []).append(k)
     for u in prop["verus_units"]:
+        try:
+            verus_unit(prop, tier, known_by_ob, res, vdir, only_set, u)
+        except Undecided as e:
+            res.undecided.append(("<verus unit %s>" % u, str(e)))
+
+
+def verus_unit(prop, tier, known_by_ob, res, vdir, only_set, u):
+    cid = prop["id"]
+    if True:
         tpath = os.path.join(prop["_dir"], u)
         ttext = read(tpath)
         obs = select(parse_annotations(ttext), tier)
         if only_set:
             obs = [o for o in obs if o["name"] in only_set]
         if not obs:
-            continue
+            return
         stem = re.sub(r"[^a-z0-9]+", "_", os.path.basename(u).split(".")[0].lower())
         gen = os.path.join(vdir, "%s_%s.rs" % (cid.lower(), stem))
         recs = V.generate(tpath, gen, prop.get("verus_features"))
